@@ -92,6 +92,13 @@ class C10(Check):
                            "order": rng.choice(["rn,rf,rn,rf", "rf,rn,rf,rn", "rn,rn,rf,rf"])})
         if mode < 0.25:
             groups.append(self._rn_group(rng, uni, rng.randrange(nroots), fault=rng.choice(["nested_sub", "nested_parent", "case", "same", "case_ok", "same_nested", "same_sub", "nested_samename"])))
+        if rng.random() < 0.2:
+            # a read that FAILS after it has already pulled in dependencies (the error comes after the references), earlier in the
+            # same process than the reads that are checked: nothing of the failed call may surface in later results
+            plain = [k for k in uni.defs if len(uni.defs[k]["secs"]) == 1]
+            if plain:
+                groups.append({"kind": "poison", "refs": rng.sample(plain, min(len(plain), rng.randint(1, 3))),
+                               "err": rng.choice(["syntax", "dup", "undefined", "assert"]), "how": rng.choice(["rf", "rn", "rf,rn", "rf,rf"])})
         nrf = rng.randint(1, 2)
         for _ in range(nrf):
             g = self._rf_group(rng, uni)
@@ -137,6 +144,9 @@ class C10(Check):
             alt = nm if fault == "same" else (nm.upper() if nm.upper() != nm else nm.lower())
             fault_arg = {"p": "w/x9/" + alt, "st": rng.choice(["abs", "cwd"]), "ty": "p", "mk": True}
             allow_coll = fault == "case_ok" or (fault == "same" and rng.random() < 0.3)
+            if rng.random() < 0.5:
+                # unrelated (empty) namespace directories whose paths sort between, before and after the two namesakes
+                more_fault_args = [{"p": q, "ty": "p", "mk": True} for q in rng.sample(["w/m5/between_ns", "w/a0/first_ns", "w/x9/Aaa_ns", "w/x9/zzz_ns", "w/d0/~late_ns"], rng.randint(1, 3))]
         elif fault in ("same_nested", "same_sub", "nested_samename"):
             # two faults at once: a second directory with the root's name (collisions allowed) AND a nesting pair that involves
             # one of the same-named directories - the nesting must be found whichever of the two is looked at first
@@ -305,6 +315,9 @@ class C10(Check):
                 if g["kind"] == "empty":
                     self._run_empty(out, w, uni, g, gi, faults)
                     continue
+                if g["kind"] == "poison":
+                    self._run_poison(out, w, uni, g, gi, faults)
+                    continue
                 canons = []
                 variants = set()
                 for oi, op in enumerate(g["ops"]):
@@ -386,6 +399,27 @@ class C10(Check):
                     out.fail("C10.complete", "group %d: after the definitions %s were %s (same process, same directory) read_namespace returned %s, the directory holds %s" % (gi, hidden, name, got, want), "evolve-stale:" + name)
         finally:
             show()
+
+    def _run_poison(self, out, w, uni, g, gi, faults) -> None:
+        refs = [k for k in g["refs"] if k in uni.defs and len(uni.defs[k]["secs"]) == 1]
+        if not refs:
+            raise InvalidScenario("poison group without references")
+        faults.add("failed-read-before")
+        tail = {"syntax": "uint8 %%% broken", "dup": "uint8 r0", "undefined": "poison_ns.Missing.9.9 m", "assert": "@assert 1 == 2"}[g["err"]]
+        text = "".join("%s r%d\n" % (k, i) for i, k in enumerate(refs)) + tail + "\n@extent 1 << 20\n"
+        w.write("w/p7/poison_ns/Bad.1.0.dsdl", text)
+        look = [{"p": r0["dir"]} for r0 in uni.roots]
+        for step in g["how"].split(","):
+            if step == "rf":
+                res = w.run_read({"op": "rf", "files": [{"p": "w/p7/poison_ns/Bad.1.0.dsdl"}], "roots": [{"p": "w/p7/poison_ns"}], "lookups": look, "key": None, "cwd": ""})
+            else:
+                res = w.run_read({"op": "rn", "root": {"p": "w/p7/poison_ns"}, "lookups": look, "key": None, "cwd": ""})
+            out.stats["reads"] += 1
+            out.obs.append([gi, step, "ok" if res["ok"] else type(res["exc"]).__name__])
+            if res["ok"]:
+                raise InvalidScenario("the poisoned definition was accepted")
+        import os
+        os.remove(w.abs("w/p7/poison_ns/Bad.1.0.dsdl"))
 
     def _run_empty(self, out, w, uni, g, gi, faults) -> None:
         import os
